@@ -55,6 +55,7 @@ type unitAn struct {
 	vars    map[types.Object]unit
 	ascii   map[types.Object]bool // boolean variables that hold "this string is ASCII only"
 	changed bool
+	summ    map[*types.Func][]unit // units of the integer results of the functions of the analysed file
 }
 
 func isStringy(t types.Type) bool {
@@ -149,6 +150,9 @@ func (u *unitAn) unitOf(e ast.Expr) unit {
 			case strings.HasSuffix(pk, "/py") && fn.Name() == "pos":
 				return uByte
 			}
+			if su := u.summ[fn]; len(su) == 1 {
+				return su[0]
+			}
 		}
 	}
 	return uNeutral
@@ -224,6 +228,13 @@ func (u *unitAn) infer(body *ast.BlockStmt) {
 								}
 							case (fn.Name() == "IndexIntCheck") && len(call.Args) == 2 && len(x.Lhs) == 2:
 								u.set(u.objOf(x.Lhs[0]), u.unitOf(call.Args[1]))
+							default:
+								// a helper of the analysed file: the units its results were found to carry
+								if su := u.summ[fn]; len(su) == len(x.Lhs) {
+									for k, l := range x.Lhs {
+										u.set(u.objOf(l), su[k])
+									}
+								}
 							}
 						}
 					}
@@ -494,11 +505,52 @@ func runC14R1(c *Ctx, r *Rep) {
 					})
 				}
 			}
+			// result units of the file's own functions (a helper that hands a byte count back to find() must not
+			// launder it): joined over the return statements, two rounds so that helpers of helpers are covered
+			summ := map[*types.Func][]unit{}
+			if tg.only == nil {
+				for round := 0; round < 2; round++ {
+					for _, d := range file.Decls {
+						fd, ok := d.(*ast.FuncDecl)
+						if !ok || fd.Body == nil || fd.Type.Results == nil {
+							continue
+						}
+						fn, _ := p.TypesInfo.Defs[fd.Name].(*types.Func)
+						if fn == nil || fn.Name() == "len" || fn.Name() == "pos" {
+							continue
+						}
+						nres := fn.Type().(*types.Signature).Results().Len()
+						su := &unitAn{info: p.TypesInfo, vars: map[types.Object]unit{}, ascii: map[types.Object]bool{}, summ: summ}
+						su.infer(fd.Body)
+						res := make([]unit, nres)
+						any := false
+						ast.Inspect(fd.Body, func(n ast.Node) bool {
+							if _, ok := n.(*ast.FuncLit); ok {
+								return false
+							}
+							if rs, ok := n.(*ast.ReturnStmt); ok && len(rs.Results) == nres {
+								for k, e := range rs.Results {
+									if tv, ok := p.TypesInfo.Types[e]; ok {
+										if b, ok := tv.Type.Underlying().(*types.Basic); ok && b.Info()&types.IsInteger != 0 {
+											res[k] = joinUnit(res[k], su.unitOf(e))
+											any = any || res[k] != uNeutral
+										}
+									}
+								}
+							}
+							return true
+						})
+						if any {
+							summ[fn] = res
+						}
+					}
+				}
+			}
 			for _, b := range bodies {
 				if strings.HasSuffix(b.id, ".init") {
 					continue // its closures are analysed one by one
 				}
-				u := &unitAn{info: p.TypesInfo, vars: map[types.Object]unit{}, ascii: map[types.Object]bool{}}
+				u := &unitAn{info: p.TypesInfo, vars: map[types.Object]unit{}, ascii: map[types.Object]bool{}, summ: summ}
 				u.infer(b.body)
 				finds, sites := u.check(b.body, b.vis)
 				if sites == 0 {
